@@ -35,8 +35,11 @@ Inductive content :=
 | CMarker (payload : option string)               (* Some p: JSON payload with "file_path" = p; None: no usable payload *)
 | CGarbage                                        (* bytes that parse as nothing (fastavro: ValueError, no Avro header) *)
 | CTruncAvro                                      (* an Avro container cut inside a block (fastavro: EOFError, not caught) *)
-| CJsonEmpty                                      (* a JSON object without "manifests" / "files": the legacy JSON fallback
-                                                     reads it as an EMPTY list / manifest (damage that still parses) *)
+| CJsonEmpty                                      (* a JSON object WITHOUT the section a legacy list / manifest consists of
+                                                     ("manifests" / "files"): not a list, not a manifest (as_list / as_manifest
+                                                     below).  What the legacy JSON fallback of the readers makes of it is read
+                                                     off the source: Gen/GenNorm.v *_JSON_MISSING_SECTION_READS_EMPTY
+                                                     (`DOC.get(key, [])`: an EMPTY list / manifest; `DOC[key]`: refused) *)
 | CPartialAvro (decoded : list string) (caught : bool).
                                                   (* an Avro container (or a stream) that yields the paths `decoded` of its first
                                                      records and THEN fails: a damaged later record / block / sync marker, or a
@@ -157,7 +160,8 @@ Definition json_parse (w : want) (c : content) : option (list string) :=
   match w, c with
   | WList, CList FJson ms => Some ms
   | WManifest, CManifest FJson es => Some es
-  | _, CJsonEmpty => Some []
+  | WList, CJsonEmpty => if LIST_JSON_MISSING_SECTION_READS_EMPTY then Some [] else None
+  | WManifest, CJsonEmpty => if MANIFEST_JSON_MISSING_SECTION_READS_EMPTY then Some [] else None
   | _, _ => None
   end.
 
@@ -375,11 +379,13 @@ Definition wf_ref (r : string) : Prop := table_relative (resolve r).
 Definition wf_data_ref (r : string) : Prop := startswith "data/" (resolve r) = true.      (* data files live under data/ *)
 Definition wf_meta_ref (r : string) : Prop := startswith "metadata/manifests/" (resolve r) = true.  (* lists, manifests *)
 
-(* what a file IS for every reader of the library (Avro or legacy JSON; a JSON object without the key is empty) *)
+(* what a file IS (Avro or legacy JSON).  A JSON object without its `manifests` / `files` section is NOT a list / manifest
+   without entries: the document does not say what the snapshot consists of (specification; that the readers agree is
+   Proofs/GCProofs.v json_parse_ok, through the regenerated *_JSON_MISSING_SECTION_READS_EMPTY) *)
 Definition as_list (c : content) : option (list string) :=
-  match c with CList _ ms => Some ms | CJsonEmpty => Some [] | _ => None end.
+  match c with CList _ ms => Some ms | _ => None end.
 Definition as_manifest (c : content) : option (list string) :=
-  match c with CManifest _ es => Some es | CJsonEmpty => Some [] | _ => None end.
+  match c with CManifest _ es => Some es | _ => None end.
 Definition list_at (st : store) (k : key) (ms : list string) : Prop :=
   exists o, lookup k st = Some o /\ as_list (body o) = Some ms.
 Definition manifest_at (st : store) (k : key) (es : list string) : Prop :=
